@@ -6,7 +6,7 @@ from vlib import Work, run_vh, run_tlc, tlc_must_pass, read_ndjson, MachineryErr
 
 def run(rep, tier, seed):
     rep.assumptions += ["accepted spellings and expected callbacks are spec/StCmd.tla; names/values come from its tables (CJK, latin, namespaced, quoted names; ints, floats, d1 dice, parenthesised expressions)",
-                        "a computed edit after a parenthesised value needs a comma (otherwise '&' continues the expression): excluded by the spec"]
+                        "a computed edit, or a name that begins like a dice operator, written after a parenthesised value without a comma is taken into that value (known finding KF-C18-1): such lists are generated, marked `runon`, and a mismatch on them is reported under that finding"]
     with Work("c18") as w:
         pre = w.path("st")
         r = tlc_must_pass(run_tlc(w, "StCmdGen", "StCmdGen_%s.cfg" % tier, env={"OUT": pre}, workers=1, timeout=3000, heap="16g"), "StCmdGen")
@@ -15,8 +15,8 @@ def run(rep, tier, seed):
         s = json.loads(p.stdout.strip().splitlines()[-1])
         if s["cases"] < 5000:
             raise MachineryError("vacuous run")
-        for m in read_ndjson(mmf)[:200]:
-            rep.violation({"key": "st-" + m["why"].split(":")[0][:30].replace(" ", "_"), "kind": "st",
+        for m in read_ndjson(mmf):
+            rep.violation({"key": "paren-value-runs-on" if m.get("runon") else "st-" + m["why"].split(":")[0][:30].replace(" ", "_"), "kind": "st",
                            "what": "input %r: %s; callbacks received: %s" % (m["input"], m["why"][:160], json.dumps(m["got"], ensure_ascii=False)[:300]),
                            "features": ["st"], "replay": m})
         if not rep.violations:
